@@ -290,6 +290,35 @@ def when_blocks(ctx):
     return k
 
 
+def errors_in_filters(ctx):
+    """directed: a clause that is an evaluation ERROR for some entry (`empty` on a number, an ordering of a number against a string is
+    not one - it is NotComparable -, `empty` on a string / bool) inside a struct filter after a key, a struct filter after `.*`, a list
+    filter, a block over struct entries, a block over list elements, a when condition, and as a plain clause: the evaluation stops
+    with the error in every container alike. Against Spec (where it speaks) and against the model (status, error kind, records)."""
+    doc = {'Resources': {'a': {'Type': 'T', 'Size': 5, 'Tags': []}, 'b': {'Type': 'U', 'Size': 7, 'Tags': [1]}}, 'l': [{'Size': 5, 'Tags': []}, {'Size': 6, 'Tags': [2]}],
+           'ok': {'a': {'Tags': []}, 'b': {'Tags': [1]}}, 'n': 5, 's': 'x', 'b': True}
+    bad = ['Size empty', 'Size !empty', 'not Size empty']
+    shapes = ['Resources[ %s ] !empty', 'Resources[ %s ].Type exists', 'Resources.*[ %s ] !empty', 'Resources.*[ %s ].Type exists', 'Resources.*[ %s ] {\n    Type exists\n  }',
+              'Resources.*[ %s ] empty', 'some Resources.*[ %s ].Type == "T"', 'l[ %s ].Size exists', 'l[ %s ] empty', 'l[*] {\n    %s\n  }', 'Resources.* {\n    %s\n  }',
+              'Resources.*[ Type == "T" ][ %s ] !empty', 'Resources.*[ Type == "T" or %s ] !empty', 'Resources.*[ %s or Type == "T" ] !empty', 'when Resources.*[ %s ] !empty {\n    n exists\n  }']
+    pairs = []
+    for b in bad:
+        for sh in shapes:
+            pairs.append({'rules': 'rule r {\n  %s\n}\nrule after {\n  n exists\n}\n' % sh.replace('%s', b), 'data': json.dumps(doc), 'loader': 'json'})
+    # the same containers with a clause that is defined for every entry: verdicts, not errors
+    for sh in shapes:
+        pairs.append({'rules': 'rule r {\n  %s\n}\n' % sh.replace('%s', 'Tags empty').replace('Resources', 'ok') if 'Type' not in sh else 'rule r {\n  %s\n}\n' % sh.replace('%s', 'Tags empty'), 'data': json.dumps(doc), 'loader': 'json'})
+    pairs += [{'rules': 'rule r {\n  n empty\n}\n', 'data': json.dumps(doc), 'loader': 'json'}, {'rules': 'rule r {\n  s empty\n}\n', 'data': json.dumps(doc), 'loader': 'json'},
+              {'rules': 'rule r {\n  b !empty\n}\n', 'data': json.dumps(doc), 'loader': 'json'}]
+    res = spec_cases(pairs, ctx.wd, 'c01err')
+    stats = {}
+    k = judge(ctx, pairs, res, stats)
+    ctx.coverage['error_in_container_files'] = len(pairs)
+    ctx.coverage['error_in_container_verdicts'] = stats
+    ctx.coverage['evaluations'] += len(pairs)
+    return k, pairs
+
+
 def run(ctx):
     ctx.build()
     pr = ctx.proofs('C01')
@@ -299,7 +328,10 @@ def run(ctx):
     n2 += variables(ctx, None if thorough else 25)
     n2 += type_blocks(ctx)
     n2 += when_blocks(ctx)
-    out, errs = corr.run(pairs[:400], ctx.wd, 'c01corr', loader='cli')
+    k_err, err_pairs = errors_in_filters(ctx)
+    n2 += k_err
+    pairs = [{'rules': p_['rules'], 'data': p_['data']} for p_ in err_pairs] + pairs
+    out, errs = corr.run(pairs[:400 + len(err_pairs)], ctx.wd, 'c01corr', loader='cli')
     if errs:
         raise ToolingError('model evaluation failed: %r' % (errs[:1],))
     stats = {}
